@@ -36,6 +36,7 @@ func init() {
 	feature("errors", featErrors)
 	feature("tests", featTests)
 	feature("methparam", featMethodStructParam)
+	feature("samenames", featSameNames)
 }
 
 // d merges name tables and extra values for templates.
@@ -1106,6 +1107,56 @@ func «.fn»(args []string) {
 	b := l.«.PostPtr»(&o, «.q»«.Detail»{«.Code»: 3})
 	c := l.«.PostAll»([]«.q»«.Order»{o, o}, [2]«.q»«.Detail»{})
 	fmt.Println("methparam", a, b, c, l.«.Last»().«.Amount», «.q»«.Sink» != nil)
+}
+`, d(n, map[string]string{"fn": fn, "q": q}))
+}
+
+// featSameNames: identifiers that collide within one package in different namespaces: two
+// structs with equally named fields, a package-level function, a method and a variable of a
+// nested scope with the same name. Every one of them has its own obfuscated name.
+func featSameNames(g *Gen) {
+	p := g.lib()
+	n := g.names(p, "A=type,E", "B=type,E", "Shared=field,E", "Other=field,E", "OnlyB=field,E", "MkA=func,E", "MkB=func,E", "Sink=var,E", "shared2=field,u")
+	f := g.newFile(p, "samenames")
+	f.add(`
+type «.A» struct {
+	«.Shared»  int
+	«.Other»   string
+	«.shared2» int
+}
+
+type «.B» struct {
+	«.Shared»  string
+	«.Other»   int
+	«.OnlyB»   bool
+	«.shared2» string
+}
+
+var «.Sink» any = []any{«.A»{}, «.B»{}}
+
+// a package-level function named like the fields
+//
+//go:noinline
+func «.Shared»(v int) int { return v + 1 }
+
+// a method named like the fields
+//
+//go:noinline
+func (b «.B») «.Other»2() int { return b.«.Other» * 2 }
+
+//go:noinline
+func «.MkA»(v int) «.A» { return «.A»{«.Shared»: «.Shared»(v), «.Other»: "a", «.shared2»: v} }
+
+//go:noinline
+func «.MkB»(v int) «.B» { return «.B»{«.Shared»: "b", «.Other»: v, «.OnlyB»: v%2 == 0, «.shared2»: "s"} }
+`, n)
+	mf, fn := g.mainFeat("samenames")
+	mf.std("fmt")
+	q := mf.use(p, g.R)
+	mf.add(`
+func «.fn»(args []string) {
+	a, b := «.q»«.MkA»(len(args)), «.q»«.MkB»(len(args)+2)
+	fmt.Println("samenames", a.«.Shared», a.«.Other», b.«.Shared», b.«.Other», b.«.OnlyB», b.«.Other»2(), «.q»«.Shared»(5))
 }
 `, d(n, map[string]string{"fn": fn, "q": q}))
 }
